@@ -41,8 +41,8 @@ def pattern_set(tier, seed):
     rest = core[len(grammar.README_PATTERNS) :]
     star, _ = grammar.generate("star")
     extra = [p for p in star if p.text not in {q.text for q in core}]
-    nsl = 60
-    pats = readme + rest[::12] + extra[seed % nsl :: nsl]
+    nsl = 80
+    pats = readme + rest[::18] + extra[seed % nsl :: nsl]
     return pats, flt
 
 
@@ -56,7 +56,7 @@ def bounds(tier, seed):
         "events_per_state_without_calendar": len(bg.event_space(False)),
         "seed_level": 1,
         "successor_depth": "2 on README patterns (thorough), 1 elsewhere",
-        "quick_slice_of_star_set": f"{seed % 60} of 60" if tier == "quick" else "all",
+        "quick_slice_of_star_set": f"{seed % 80} of 80" if tier == "quick" else "all",
     }
 
 
